@@ -318,7 +318,13 @@ def search_in_file_ios(inference_state, file_io_iterator, name,
     open_limit = _OPENED_FILE_LIMIT / limit_reduction
     file_io_count = 0
     parsed_file_count = 0
-    regex = re.compile(r'\b' + re.escape(name) + (r'' if complete else r'\b'))
+    # \b only knows \w: identifiers may also begin / end with characters that are
+    # not \w (combining marks, vowel signs), there is no boundary next to those.
+    regex = re.compile(
+        (r'\b' if re.match(r'\w', name) else r'')
+        + re.escape(name)
+        + (r'\b' if not complete and re.search(r'\w$', name) else r'')
+    )
     for file_io in file_io_iterator:
         file_io_count += 1
         m = _check_fs(inference_state, file_io, regex)
